@@ -46,6 +46,7 @@ def showGet : GetRes → String
   | .found e => if e.del then s!"del {e.seq}" else s!"val {e.seq} {toHex e.val}"
   | .notFound => "notfound"
   | .err => "err"
+  | .panic => "panic"
 
 def showDoc (d : Doc) (data : Bytes) : String :=
   s!"size={d.size} esize={d.entriesSize} start={toHex d.startKey} end={toHex d.endKey} sseq={d.startSeq} eseq={d.endSeq} fnv={(fnv64 data).toNat}"
@@ -105,8 +106,16 @@ def step (st : St) : List String → St × String
       ({ st with sdata := sdata, smeta := openDoc st.doc sdata }, s!"size={sdata.length} fnv={(fnv64 sdata).toNat}")
   | ["sget", k] => (st, withMeta st.smeta fun m => showGet (get m st.doc.entriesSize st.sdata (hexOr k)))
   | ["corrupt", kind, n] =>
-    let cdata := if kind == "ver" then st.data.take (st.data.length - u32W) ++ leBytes u32W (natOr n)
-                 else st.data.take (st.data.length - natOr n)
+    let cdata :=
+      if kind == "ver" then st.data.take (st.data.length - u32W) ++ leBytes u32W (natOr n)
+      else if kind == "idx" then
+        -- one index offset pointing beyond the entries block (the writer never produces this)
+        match st.fresh with
+        | some m =>
+          if m.offsets.isEmpty then st.data
+          else encEntries st.ents ++ encFooter ⟨m.bloom, m.offsets.set (natOr n % m.offsets.length) (st.doc.entriesSize + 1 + natOr n)⟩ st.doc.entriesSize
+        | none => st.data
+      else st.data.take (st.data.length - natOr n)
     ({ st with cdata := cdata, cmeta := openDoc st.doc cdata }, "ok")
   | ["cget", k] => (st, withMeta st.cmeta fun m => showGet (get m st.doc.entriesSize st.cdata (hexOr k)))
   | ["cscan", p] => (st, withMeta st.cmeta fun _ => match scanPrefix st.doc.entriesSize st.cdata (hexOr p) with
